@@ -179,6 +179,17 @@ theorem C03_bytes (p : Policy) (hp : PlainC p.ensureInit) (hreq : p.ensureInit.r
   obtain ⟨t, _, aps, _, _, hs⟩ := reread_open_tagC p hp input k hk htt hne
   exact C03_sanitizeAttrs p.ensureInit hreq k.data t.attrs aps k.attrs hs b hb
 
+/-- (per-input form)  **C03 (byte level, plain policies with URL checking)**: every href / cite / src at a checked
+    position on a tag re-read from the returned bytes carries a value `validURL` returned. -/
+theorem C03_bytes_on (p : Policy) (hreq : p.ensureInit.requireParseableURLs = true)
+    (input : Bytes) (hp : PlainOn p.ensureInit (tokenize input)) :
+    ∀ k ∈ tokenize (p.sanitizeCore input), (k.tt = .start ∨ k.tt = .selfClosing) →
+      ∀ b ∈ k.attrs, UrlChecked p.ensureInit k.data b := by
+  intro k hk htt b hb
+  have hne : k.attrs ≠ [] := by intro h; rw [h] at hb; simp at hb
+  obtain ⟨t, _, aps, _, _, hs⟩ := reread_open_tagOn p input hp k hk htt hne
+  exact C03_sanitizeAttrs p.ensureInit hreq k.data t.attrs aps k.attrs hs b hb
+
 /-- **C03, what a browser makes of an accepted URL** (scheme half of the bridge): a value
     `validURL` returns either is classified by the WHATWG scheme-state rules as having a scheme —
     and then that scheme is on the policy's allowlist (approved by a custom check when some are
@@ -237,6 +248,18 @@ theorem C03_bytes_browser (p : Policy) (hp : PlainC p.ensureInit) (hreq : p.ensu
       ∀ b ∈ k.attrs, Spec.isUrlPosition k.data b.key = true → BrowserOK p.ensureInit b.val := by
   intro k hk htt b hb hpos
   obtain ⟨raw, hv⟩ := C03_bytes p hp hreq input k hk htt b hb hpos (fun _ => hnr)
+  exact C03_browser _ hreq raw b.val hv
+
+/-- (per-input form)  **C03 at byte level, as a browser reads it** (plain policies with URL checking, no src
+    rewriter): every href / cite / src at a checked position on a tag re-read from the returned
+    bytes is `BrowserOK` — no javascript:, data:, vbscript: … URL unless the policy accepts that
+    scheme, and no relative URL unless relative URLs are allowed. -/
+theorem C03_bytes_browser_on (p : Policy) (hreq : p.ensureInit.requireParseableURLs = true)
+    (hnr : p.ensureInit.srcRewriter = none) (input : Bytes) (hp : PlainOn p.ensureInit (tokenize input)) :
+    ∀ k ∈ tokenize (p.sanitizeCore input), (k.tt = .start ∨ k.tt = .selfClosing) →
+      ∀ b ∈ k.attrs, Spec.isUrlPosition k.data b.key = true → BrowserOK p.ensureInit b.val := by
+  intro k hk htt b hb hpos
+  obtain ⟨raw, hv⟩ := C03_bytes_on p hreq input hp k hk htt b hb hpos (fun _ => hnr)
   exact C03_browser _ hreq raw b.val hv
 
 example :
